@@ -1,5 +1,5 @@
 (* Model of the session-injection protocol of UConn and its sessionController.
-   Go sources (line numbers at the pinned commit, with fixes/C20-apply-preset-once.diff applied):
+   Go sources (line numbers at the pinned commit with fix 222e09f "apply the ClientHelloID preset only once"):
      u_session_controller.go:32-361  sessionController (state, locked, loadSessionTracker, owned extensions)
      u_conn.go:96-201                BuildHandshakeState / BuildHandshakeStateWithoutSession / buildHandshakeState /
                                      uLoadSession / uApplyPatch
@@ -8,16 +8,26 @@
      u_parrots.go:2735-2943          applyPresetByID / ApplyPreset (only the parts touching the session extensions
                                      and the key-share private keys)
      handshake_client.go:396-560     Conn.loadSession (tracker hooks), u_handshake_client.go:383-440 clientHandshake
-     u_session_ticket.go, u_pre_shared_key.go  SessionTicketExtension / UtlsPreSharedKeyExtension (IsInitialized,
-                                     InitializeByUtls, what Read puts on the wire)
+     u_session_ticket.go, u_pre_shared_key.go  SessionTicketExtension / UtlsPreSharedKeyExtension
    Executable definitions only. Every uAssert / panic(...) is [Panic code]; every returned error is [Err code].
    Go mutates state before it fails, so every operation returns the new state together with its outcome.
 
-   Abstractions (see notes/C20.md): an extension object is (who made it, Initialized, the bytes it would put on the
-   wire, the identity of the session it carries). Pointer identity between the controller's owned extension and the
-   entry of uconn.Extensions is kept explicitly: a slot of the extension list is either [SOwn] (the very object the
-   controller owns) or [SObj o] (another object). Key pairs are identified by a generation number. Cryptography, the
-   ClientHello encoding outside the two session extensions and the network are not modelled. *)
+   ARCHITECTURE. The state is literally  finite control (cstate)  x  provenance flags (gstate)  x  data (dstate).
+   The Go functions are written as programs of a small free monad [prog]: [Get] can read only the two finite parts,
+   [Put] changes only the control part, and every movement of data (ticket bytes, identities, session pointers) is a
+   first-order action [Act a] whose effect on the flags ([gapply]) and on the data ([dapply]) is defined once. So the
+   control behaviour of every call depends, by construction, only on (abstract world, kind of call, control, flags):
+   [runC]; the data ride along: [runF]. Proofs/SessionP.v computes the reachable control states per abstract world.
+
+   Abstractions (see notes/C20.md): an extension object is (made by the caller?, Initialized) in the control part and
+   (wire bytes, session identity) in the data part; pointer identity between the controller's extension and the entry
+   of uconn.Extensions is kept explicitly ([SOwn] / [SObj]); only the first session_ticket entry of the extension list
+   is tracked (the others are the spec's untouched empty objects). The key-share private keys are modelled by three
+   bits (a share exists / keys exist / the keys are the ones of the share). The one place where the code compares
+   data (setPskToUConn on state PskExtAllSet: "only binders are allowed to change") is modelled by the flag
+   [psk_same]: true exactly when the psk fields of HandshakeState were copied from the owned extension and neither
+   has been written since. Cryptography, the ClientHello outside the two session extensions and the network are not
+   modelled. *)
 From UV Require Import Base.Common.
 
 (* ---- panic codes (the message each uAssert/panic carries) ---- *)
@@ -49,18 +59,23 @@ Inductive bstatus := NotBuilt | ByUtls | ByGo.                                  
 Inductive cst := NoSession | TicketInit | TicketAllSet | PskInit | PskAllSet.    (* u_session_controller.go:21-25 *)
 Inductive trk := NeverCalled | AboutToCall | ByULoad | ByGoTLS.                  (* u_session_controller.go:13-16 *)
 
-(* an ISessionTicketExtension / PreSharedKeyExtension object *)
-Record obj := mkObj {
-  o_user : bool;    (* true: passed in by the caller; false: the object inside the ClientHelloSpec *)
-  o_init : bool;    (* IsInitialized() *)
-  o_data : bytes;   (* Ticket, resp. Identities[0].Label *)
-  o_sess : N        (* identity of the *SessionState it carries (0 = nil) *)
-}.
-Definition pristine : obj := mkObj false false [] 0.
-Inductive slot := SOwn | SObj (o : obj).
+(* control view of an ISessionTicketExtension / PreSharedKeyExtension object: who made it, IsInitialized() *)
+Inductive oshape := ONone | OSome (user init : bool).
+(* an entry of uconn.Extensions: the very object the controller owns, or another object *)
+Inductive sshape := SOwn | SObj (user init : bool).
+Inductive xts := X0 | X1 (s : sshape) | Xmany (s : sshape).   (* session_ticket entries: none, one, several (first shown) *)
+Inductive xps := XPnone | XPsome (s : sshape).                (* the pre_shared_key entry *)
+(* provenance of a datum: it is the value the caller injected (an initialized setter argument), or anything else *)
+Inductive ghost := GInj | GOther.
+
+Definition datum := (bytes * N)%type.     (* wire bytes (Ticket / Identities[0].Label), identity of the *SessionState (0 = nil) *)
+Definition pristine : datum := ([], 0).
 
 (* what loadSession finds in the ClientSessionCache for this server *)
 Inductive hit := HitNone | Hit12 (ticket : bytes) (sess : N) | Hit13 (label : bytes) (sess : N).
+Inductive hitk := HNone | H12 | H13.
+Definition hit_kind (h : hit) : hitk := match h with HitNone => HNone | Hit12 _ _ => H12 | Hit13 _ _ => H13 end.
+Definition hit_datum (h : hit) : datum := match h with HitNone => pristine | Hit12 b s | Hit13 b s => (b, s) end.
 
 (* the session part of a marshaled ClientHello: the bodies of the session_ticket extensions in order, and the first
    identity of pre_shared_key when that extension is written *)
@@ -81,6 +96,17 @@ Record world := mkWorld {
   w_reapply : bool     (* true = the code before the fix: ApplyPreset runs again on every build until the session is locked *)
 }.
 
+(* the finite part of a world *)
+Inductive tclass := T0 | T1 | Tmany.
+Definition tclass_of (n : nat) : tclass := match n with O => T0 | S O => T1 | _ => Tmany end.
+Record cworld := mkCW {
+  cw_golang : bool; cw_tk : tclass; cw_psk : bool; cw_psk_last : bool; cw_skip : bool; cw_tls13 : bool;
+  cw_cache0 : bool; cw_disabled : bool; cw_omit : bool; cw_hit : hitk; cw_srv13 : bool; cw_reapply : bool
+}.
+Definition cworld_of (w : world) : cworld :=
+  mkCW (w_golang w) (tclass_of (w_tickets w)) (w_psk w) (w_psk_last w) (w_skip w) (w_tls13 w) (w_cache0 w)
+       (w_disabled w) (w_omit w) (hit_kind (w_hit w)) (w_srv13 w) (w_reapply w).
+
 Inductive op :=
 | SetCache                                   (* SetSessionCache(non-nil cache) *)
 | BuildNoSess                                (* BuildHandshakeStateWithoutSession *)
@@ -90,7 +116,28 @@ Inductive op :=
 | Build                                      (* BuildHandshakeState *)
 | Handshake.
 
-Record st := mkSt {
+(* the finite part of a call *)
+Inductive argk := ANil | AInit | AUninit.
+Inductive okind := KSetCache | KBuildNoSess | KSetTicket (a : argk) | KSetPsk (a : argk) | KSetState | KBuild | KHandshake.
+Definition argk_of (e : option (bool * bytes * N)) : argk :=
+  match e with None => ANil | Some (true, _, _) => AInit | Some (false, _, _) => AUninit end.
+Definition kind (o : op) : okind :=
+  match o with
+  | SetCache => KSetCache | BuildNoSess => KBuildNoSess | Build => KBuild | Handshake => KHandshake
+  | SetTicket e => KSetTicket (argk_of e) | SetPsk e => KSetPsk (argk_of e) | SetState _ => KSetState
+  end.
+(* the call hands over an initialized session *)
+Definition injecting (k : okind) : bool :=
+  match k with KSetTicket AInit | KSetPsk AInit | KSetState => true | _ => false end.
+(* the datum a setter call carries *)
+Definition arg_datum (o : op) : datum :=
+  match o with
+  | SetTicket (Some (_, d, se)) | SetPsk (Some (_, d, se)) => (d, se)
+  | SetState (Some (d, se)) => (d, se)
+  | _ => pristine          (* SetSessionState(nil): Initialized ticket extension with empty ticket and nil session *)
+  end.
+
+Record cstate := mkC {
   cache : bool;
   status : bstatus;
   applied : bool;
@@ -98,63 +145,253 @@ Record st := mkSt {
   locked : bool;
   tracker : trk;
   calling : bool;
-  own_t : option obj;
-  own_p : option obj;
-  x_t : list slot;
-  x_p : option slot;
+  own_t : oshape;
+  own_p : oshape;
+  x_t : xts;
+  x_p : xps;
+  share_some : bool;
+  keys_some : bool;
+  keys_match : bool;
+  done : bool;
+  herr : bool
+}.
+Definition set_cache (v : bool) (s : cstate) : cstate := mkC (v) (status s) (applied s) (cs s) (locked s) (tracker s) (calling s) (own_t s) (own_p s) (x_t s) (x_p s) (share_some s) (keys_some s) (keys_match s) (done s) (herr s).
+Definition set_status (v : bstatus) (s : cstate) : cstate := mkC (cache s) (v) (applied s) (cs s) (locked s) (tracker s) (calling s) (own_t s) (own_p s) (x_t s) (x_p s) (share_some s) (keys_some s) (keys_match s) (done s) (herr s).
+Definition set_applied (v : bool) (s : cstate) : cstate := mkC (cache s) (status s) (v) (cs s) (locked s) (tracker s) (calling s) (own_t s) (own_p s) (x_t s) (x_p s) (share_some s) (keys_some s) (keys_match s) (done s) (herr s).
+Definition set_cs (v : cst) (s : cstate) : cstate := mkC (cache s) (status s) (applied s) (v) (locked s) (tracker s) (calling s) (own_t s) (own_p s) (x_t s) (x_p s) (share_some s) (keys_some s) (keys_match s) (done s) (herr s).
+Definition set_locked (v : bool) (s : cstate) : cstate := mkC (cache s) (status s) (applied s) (cs s) (v) (tracker s) (calling s) (own_t s) (own_p s) (x_t s) (x_p s) (share_some s) (keys_some s) (keys_match s) (done s) (herr s).
+Definition set_tracker (v : trk) (s : cstate) : cstate := mkC (cache s) (status s) (applied s) (cs s) (locked s) (v) (calling s) (own_t s) (own_p s) (x_t s) (x_p s) (share_some s) (keys_some s) (keys_match s) (done s) (herr s).
+Definition set_calling (v : bool) (s : cstate) : cstate := mkC (cache s) (status s) (applied s) (cs s) (locked s) (tracker s) (v) (own_t s) (own_p s) (x_t s) (x_p s) (share_some s) (keys_some s) (keys_match s) (done s) (herr s).
+Definition set_own_t (v : oshape) (s : cstate) : cstate := mkC (cache s) (status s) (applied s) (cs s) (locked s) (tracker s) (calling s) (v) (own_p s) (x_t s) (x_p s) (share_some s) (keys_some s) (keys_match s) (done s) (herr s).
+Definition set_own_p (v : oshape) (s : cstate) : cstate := mkC (cache s) (status s) (applied s) (cs s) (locked s) (tracker s) (calling s) (own_t s) (v) (x_t s) (x_p s) (share_some s) (keys_some s) (keys_match s) (done s) (herr s).
+Definition set_x_t (v : xts) (s : cstate) : cstate := mkC (cache s) (status s) (applied s) (cs s) (locked s) (tracker s) (calling s) (own_t s) (own_p s) (v) (x_p s) (share_some s) (keys_some s) (keys_match s) (done s) (herr s).
+Definition set_x_p (v : xps) (s : cstate) : cstate := mkC (cache s) (status s) (applied s) (cs s) (locked s) (tracker s) (calling s) (own_t s) (own_p s) (x_t s) (v) (share_some s) (keys_some s) (keys_match s) (done s) (herr s).
+Definition set_share_some (v : bool) (s : cstate) : cstate := mkC (cache s) (status s) (applied s) (cs s) (locked s) (tracker s) (calling s) (own_t s) (own_p s) (x_t s) (x_p s) (v) (keys_some s) (keys_match s) (done s) (herr s).
+Definition set_keys_some (v : bool) (s : cstate) : cstate := mkC (cache s) (status s) (applied s) (cs s) (locked s) (tracker s) (calling s) (own_t s) (own_p s) (x_t s) (x_p s) (share_some s) (v) (keys_match s) (done s) (herr s).
+Definition set_keys_match (v : bool) (s : cstate) : cstate := mkC (cache s) (status s) (applied s) (cs s) (locked s) (tracker s) (calling s) (own_t s) (own_p s) (x_t s) (x_p s) (share_some s) (keys_some s) (v) (done s) (herr s).
+Definition set_done (v : bool) (s : cstate) : cstate := mkC (cache s) (status s) (applied s) (cs s) (locked s) (tracker s) (calling s) (own_t s) (own_p s) (x_t s) (x_p s) (share_some s) (keys_some s) (keys_match s) (v) (herr s).
+Definition set_herr (v : bool) (s : cstate) : cstate := mkC (cache s) (status s) (applied s) (cs s) (locked s) (tracker s) (calling s) (own_t s) (own_p s) (x_t s) (x_p s) (share_some s) (keys_some s) (keys_match s) (done s) (v).
+
+Record gstate := mkG {
+  psk_same : bool;
+  g_own_t : ghost;
+  g_own_p : ghost;
+  g_slot_t : ghost;
+  g_slot_p : ghost;
+  g_hs_sess : ghost;
+  g_hs_ticket : ghost;
+  g_hs_ident : ghost;
+  g_raw_t : ghost;
+  g_raw_p : ghost
+}.
+Definition set_psk_same (v : bool) (s : gstate) : gstate := mkG (v) (g_own_t s) (g_own_p s) (g_slot_t s) (g_slot_p s) (g_hs_sess s) (g_hs_ticket s) (g_hs_ident s) (g_raw_t s) (g_raw_p s).
+Definition set_g_own_t (v : ghost) (s : gstate) : gstate := mkG (psk_same s) (v) (g_own_p s) (g_slot_t s) (g_slot_p s) (g_hs_sess s) (g_hs_ticket s) (g_hs_ident s) (g_raw_t s) (g_raw_p s).
+Definition set_g_own_p (v : ghost) (s : gstate) : gstate := mkG (psk_same s) (g_own_t s) (v) (g_slot_t s) (g_slot_p s) (g_hs_sess s) (g_hs_ticket s) (g_hs_ident s) (g_raw_t s) (g_raw_p s).
+Definition set_g_slot_t (v : ghost) (s : gstate) : gstate := mkG (psk_same s) (g_own_t s) (g_own_p s) (v) (g_slot_p s) (g_hs_sess s) (g_hs_ticket s) (g_hs_ident s) (g_raw_t s) (g_raw_p s).
+Definition set_g_slot_p (v : ghost) (s : gstate) : gstate := mkG (psk_same s) (g_own_t s) (g_own_p s) (g_slot_t s) (v) (g_hs_sess s) (g_hs_ticket s) (g_hs_ident s) (g_raw_t s) (g_raw_p s).
+Definition set_g_hs_sess (v : ghost) (s : gstate) : gstate := mkG (psk_same s) (g_own_t s) (g_own_p s) (g_slot_t s) (g_slot_p s) (v) (g_hs_ticket s) (g_hs_ident s) (g_raw_t s) (g_raw_p s).
+Definition set_g_hs_ticket (v : ghost) (s : gstate) : gstate := mkG (psk_same s) (g_own_t s) (g_own_p s) (g_slot_t s) (g_slot_p s) (g_hs_sess s) (v) (g_hs_ident s) (g_raw_t s) (g_raw_p s).
+Definition set_g_hs_ident (v : ghost) (s : gstate) : gstate := mkG (psk_same s) (g_own_t s) (g_own_p s) (g_slot_t s) (g_slot_p s) (g_hs_sess s) (g_hs_ticket s) (v) (g_raw_t s) (g_raw_p s).
+Definition set_g_raw_t (v : ghost) (s : gstate) : gstate := mkG (psk_same s) (g_own_t s) (g_own_p s) (g_slot_t s) (g_slot_p s) (g_hs_sess s) (g_hs_ticket s) (g_hs_ident s) (v) (g_raw_p s).
+Definition set_g_raw_p (v : ghost) (s : gstate) : gstate := mkG (psk_same s) (g_own_t s) (g_own_p s) (g_slot_t s) (g_slot_p s) (g_hs_sess s) (g_hs_ticket s) (g_hs_ident s) (g_raw_t s) (v).
+
+Record dstate := mkD {
+  d_own_t : datum;
+  d_own_p : datum;
+  d_slot_t : datum;
+  d_slot_p : datum;
   hs_sess : N;
   hs_ticket : bytes;
   hs_ident : option bytes;
   hs_early : N;
-  gen : N;
-  keys : option N;
-  share : option N;
   raw : option wireview;
-  done : bool;
-  herr : bool;
   wire : option wireview
 }.
+Definition set_d_own_t (v : datum) (s : dstate) : dstate := mkD (v) (d_own_p s) (d_slot_t s) (d_slot_p s) (hs_sess s) (hs_ticket s) (hs_ident s) (hs_early s) (raw s) (wire s).
+Definition set_d_own_p (v : datum) (s : dstate) : dstate := mkD (d_own_t s) (v) (d_slot_t s) (d_slot_p s) (hs_sess s) (hs_ticket s) (hs_ident s) (hs_early s) (raw s) (wire s).
+Definition set_d_slot_t (v : datum) (s : dstate) : dstate := mkD (d_own_t s) (d_own_p s) (v) (d_slot_p s) (hs_sess s) (hs_ticket s) (hs_ident s) (hs_early s) (raw s) (wire s).
+Definition set_d_slot_p (v : datum) (s : dstate) : dstate := mkD (d_own_t s) (d_own_p s) (d_slot_t s) (v) (hs_sess s) (hs_ticket s) (hs_ident s) (hs_early s) (raw s) (wire s).
+Definition set_hs_sess (v : N) (s : dstate) : dstate := mkD (d_own_t s) (d_own_p s) (d_slot_t s) (d_slot_p s) (v) (hs_ticket s) (hs_ident s) (hs_early s) (raw s) (wire s).
+Definition set_hs_ticket (v : bytes) (s : dstate) : dstate := mkD (d_own_t s) (d_own_p s) (d_slot_t s) (d_slot_p s) (hs_sess s) (v) (hs_ident s) (hs_early s) (raw s) (wire s).
+Definition set_hs_ident (v : option bytes) (s : dstate) : dstate := mkD (d_own_t s) (d_own_p s) (d_slot_t s) (d_slot_p s) (hs_sess s) (hs_ticket s) (v) (hs_early s) (raw s) (wire s).
+Definition set_hs_early (v : N) (s : dstate) : dstate := mkD (d_own_t s) (d_own_p s) (d_slot_t s) (d_slot_p s) (hs_sess s) (hs_ticket s) (hs_ident s) (v) (raw s) (wire s).
+Definition set_raw (v : option wireview) (s : dstate) : dstate := mkD (d_own_t s) (d_own_p s) (d_slot_t s) (d_slot_p s) (hs_sess s) (hs_ticket s) (hs_ident s) (hs_early s) (v) (wire s).
+Definition set_wire (v : option wireview) (s : dstate) : dstate := mkD (d_own_t s) (d_own_p s) (d_slot_t s) (d_slot_p s) (hs_sess s) (hs_ticket s) (hs_ident s) (hs_early s) (raw s) (v).
 
-Definition set_cache (v : bool) (s : st) : st := mkSt (v) (status s) (applied s) (cs s) (locked s) (tracker s) (calling s) (own_t s) (own_p s) (x_t s) (x_p s) (hs_sess s) (hs_ticket s) (hs_ident s) (hs_early s) (gen s) (keys s) (share s) (raw s) (done s) (herr s) (wire s).
-Definition set_status (v : bstatus) (s : st) : st := mkSt (cache s) (v) (applied s) (cs s) (locked s) (tracker s) (calling s) (own_t s) (own_p s) (x_t s) (x_p s) (hs_sess s) (hs_ticket s) (hs_ident s) (hs_early s) (gen s) (keys s) (share s) (raw s) (done s) (herr s) (wire s).
-Definition set_applied (v : bool) (s : st) : st := mkSt (cache s) (status s) (v) (cs s) (locked s) (tracker s) (calling s) (own_t s) (own_p s) (x_t s) (x_p s) (hs_sess s) (hs_ticket s) (hs_ident s) (hs_early s) (gen s) (keys s) (share s) (raw s) (done s) (herr s) (wire s).
-Definition set_cs (v : cst) (s : st) : st := mkSt (cache s) (status s) (applied s) (v) (locked s) (tracker s) (calling s) (own_t s) (own_p s) (x_t s) (x_p s) (hs_sess s) (hs_ticket s) (hs_ident s) (hs_early s) (gen s) (keys s) (share s) (raw s) (done s) (herr s) (wire s).
-Definition set_locked (v : bool) (s : st) : st := mkSt (cache s) (status s) (applied s) (cs s) (v) (tracker s) (calling s) (own_t s) (own_p s) (x_t s) (x_p s) (hs_sess s) (hs_ticket s) (hs_ident s) (hs_early s) (gen s) (keys s) (share s) (raw s) (done s) (herr s) (wire s).
-Definition set_tracker (v : trk) (s : st) : st := mkSt (cache s) (status s) (applied s) (cs s) (locked s) (v) (calling s) (own_t s) (own_p s) (x_t s) (x_p s) (hs_sess s) (hs_ticket s) (hs_ident s) (hs_early s) (gen s) (keys s) (share s) (raw s) (done s) (herr s) (wire s).
-Definition set_calling (v : bool) (s : st) : st := mkSt (cache s) (status s) (applied s) (cs s) (locked s) (tracker s) (v) (own_t s) (own_p s) (x_t s) (x_p s) (hs_sess s) (hs_ticket s) (hs_ident s) (hs_early s) (gen s) (keys s) (share s) (raw s) (done s) (herr s) (wire s).
-Definition set_own_t (v : option obj) (s : st) : st := mkSt (cache s) (status s) (applied s) (cs s) (locked s) (tracker s) (calling s) (v) (own_p s) (x_t s) (x_p s) (hs_sess s) (hs_ticket s) (hs_ident s) (hs_early s) (gen s) (keys s) (share s) (raw s) (done s) (herr s) (wire s).
-Definition set_own_p (v : option obj) (s : st) : st := mkSt (cache s) (status s) (applied s) (cs s) (locked s) (tracker s) (calling s) (own_t s) (v) (x_t s) (x_p s) (hs_sess s) (hs_ticket s) (hs_ident s) (hs_early s) (gen s) (keys s) (share s) (raw s) (done s) (herr s) (wire s).
-Definition set_x_t (v : list slot) (s : st) : st := mkSt (cache s) (status s) (applied s) (cs s) (locked s) (tracker s) (calling s) (own_t s) (own_p s) (v) (x_p s) (hs_sess s) (hs_ticket s) (hs_ident s) (hs_early s) (gen s) (keys s) (share s) (raw s) (done s) (herr s) (wire s).
-Definition set_x_p (v : option slot) (s : st) : st := mkSt (cache s) (status s) (applied s) (cs s) (locked s) (tracker s) (calling s) (own_t s) (own_p s) (x_t s) (v) (hs_sess s) (hs_ticket s) (hs_ident s) (hs_early s) (gen s) (keys s) (share s) (raw s) (done s) (herr s) (wire s).
-Definition set_hs_sess (v : N) (s : st) : st := mkSt (cache s) (status s) (applied s) (cs s) (locked s) (tracker s) (calling s) (own_t s) (own_p s) (x_t s) (x_p s) (v) (hs_ticket s) (hs_ident s) (hs_early s) (gen s) (keys s) (share s) (raw s) (done s) (herr s) (wire s).
-Definition set_hs_ticket (v : bytes) (s : st) : st := mkSt (cache s) (status s) (applied s) (cs s) (locked s) (tracker s) (calling s) (own_t s) (own_p s) (x_t s) (x_p s) (hs_sess s) (v) (hs_ident s) (hs_early s) (gen s) (keys s) (share s) (raw s) (done s) (herr s) (wire s).
-Definition set_hs_ident (v : option bytes) (s : st) : st := mkSt (cache s) (status s) (applied s) (cs s) (locked s) (tracker s) (calling s) (own_t s) (own_p s) (x_t s) (x_p s) (hs_sess s) (hs_ticket s) (v) (hs_early s) (gen s) (keys s) (share s) (raw s) (done s) (herr s) (wire s).
-Definition set_hs_early (v : N) (s : st) : st := mkSt (cache s) (status s) (applied s) (cs s) (locked s) (tracker s) (calling s) (own_t s) (own_p s) (x_t s) (x_p s) (hs_sess s) (hs_ticket s) (hs_ident s) (v) (gen s) (keys s) (share s) (raw s) (done s) (herr s) (wire s).
-Definition set_gen (v : N) (s : st) : st := mkSt (cache s) (status s) (applied s) (cs s) (locked s) (tracker s) (calling s) (own_t s) (own_p s) (x_t s) (x_p s) (hs_sess s) (hs_ticket s) (hs_ident s) (hs_early s) (v) (keys s) (share s) (raw s) (done s) (herr s) (wire s).
-Definition set_keys (v : option N) (s : st) : st := mkSt (cache s) (status s) (applied s) (cs s) (locked s) (tracker s) (calling s) (own_t s) (own_p s) (x_t s) (x_p s) (hs_sess s) (hs_ticket s) (hs_ident s) (hs_early s) (gen s) (v) (share s) (raw s) (done s) (herr s) (wire s).
-Definition set_share (v : option N) (s : st) : st := mkSt (cache s) (status s) (applied s) (cs s) (locked s) (tracker s) (calling s) (own_t s) (own_p s) (x_t s) (x_p s) (hs_sess s) (hs_ticket s) (hs_ident s) (hs_early s) (gen s) (keys s) (v) (raw s) (done s) (herr s) (wire s).
-Definition set_raw (v : option wireview) (s : st) : st := mkSt (cache s) (status s) (applied s) (cs s) (locked s) (tracker s) (calling s) (own_t s) (own_p s) (x_t s) (x_p s) (hs_sess s) (hs_ticket s) (hs_ident s) (hs_early s) (gen s) (keys s) (share s) (v) (done s) (herr s) (wire s).
-Definition set_done (v : bool) (s : st) : st := mkSt (cache s) (status s) (applied s) (cs s) (locked s) (tracker s) (calling s) (own_t s) (own_p s) (x_t s) (x_p s) (hs_sess s) (hs_ticket s) (hs_ident s) (hs_early s) (gen s) (keys s) (share s) (raw s) (v) (herr s) (wire s).
-Definition set_herr (v : bool) (s : st) : st := mkSt (cache s) (status s) (applied s) (cs s) (locked s) (tracker s) (calling s) (own_t s) (own_p s) (x_t s) (x_p s) (hs_sess s) (hs_ticket s) (hs_ident s) (hs_early s) (gen s) (keys s) (share s) (raw s) (done s) (v) (wire s).
-Definition set_wire (v : option wireview) (s : st) : st := mkSt (cache s) (status s) (applied s) (cs s) (locked s) (tracker s) (calling s) (own_t s) (own_p s) (x_t s) (x_p s) (hs_sess s) (hs_ticket s) (hs_ident s) (hs_early s) (gen s) (keys s) (share s) (raw s) (done s) (herr s) (v).
+Definition st := (cstate * gstate * dstate)%type.
+Definition st_c (s : st) : cstate := fst (fst s).
+Definition st_g (s : st) : gstate := snd (fst s).
+Definition st_d (s : st) : dstate := snd s.
 
-(* ---- state-and-outcome monad: the state survives an error or a panic ---- *)
-Definition M (A : Type) := st -> st * res A.
-Definition ret {A} (a : A) : M A := fun s => (s, Ok a).
-Definition mbind {A B} (m : M A) (f : A -> M B) : M B :=
-  fun s => match m s with
-           | (s', Ok a) => f a s'
-           | (s', Err c) => (s', Err c)
-           | (s', Panic c) => (s', Panic c)
-           end.
-Notation "'let!' x := m 'in' k" := (mbind m (fun x => k)) (at level 199, x name, m at level 100, k at level 199, right associativity).
-Notation "m ;;; k" := (mbind m (fun _ => k)) (at level 199, right associativity).
-Definition get : M st := fun s => (s, Ok s).
-Definition upd (f : st -> st) : M unit := fun s => (f s, Ok tt).
-Definition merr {A} (c : N) : M A := fun s => (s, Err c).
-Definition mpanic {A} (c : N) : M A := fun s => (s, Panic c).
-Definition uassert (b : bool) (c : N) : M unit := if b then ret tt else mpanic c.
-Definition when (b : bool) (m : M unit) : M unit := if b then m else ret tt.
+(* ---- movements of data: the only way a program touches the flags and the data ---- *)
+Inductive dact :=
+| DArgT | DArgP          (* the controller takes the caller's extension (overrideExtension :235) *)
+| DAdoptT | DAdoptP      (* the controller takes the extension found in uconn.Extensions (syncSessionExts :278,288) *)
+| DPreset                (* uconn.Extensions := copy of the spec's list (u_parrots.go:2839-2840) *)
+| DInitT | DInitP        (* InitializeByUtls with the session loaded from the cache (:158,:182) *)
+| DHsFromT | DHsFromP    (* setSessionTicketToUConn :191-192, setPskToUConn :201-204 *)
+| DClearT | DClearP      (* syncSessionExts :301-303, :309-313 *)
+| DMarshal               (* MarshalClientHello: what Read() of the two extensions writes *)
+| DWireRaw | DWireGo.    (* the hello goes on the wire: the marshaled one, or the one crypto/tls builds for HelloGolang *)
+
+Definition first_own (x : xts) : bool := match x with X1 SOwn | Xmany SOwn => true | _ => false end.
+Definition first_slot (x : xts) : option sshape := match x with X0 => None | X1 s | Xmany s => Some s end.
+Definition p_own (x : xps) : bool := match x with XPsome SOwn => true | _ => false end.
+Definition o_some (o : oshape) : bool := match o with ONone => false | OSome _ _ => true end.
+Definition o_is_init (o : oshape) : bool := match o with OSome _ true => true | _ => false end.
+(* IsInitialized() of the object an entry denotes *)
+Definition slot_init (own : oshape) (s : sshape) : bool :=
+  match s with SOwn => o_is_init own | SObj _ i => i end.
+(* the spec's object in the freshly copied list: the controller's own object if it adopted the spec's before *)
+Definition spec_slot (own : oshape) : sshape :=
+  match own with OSome false _ => SOwn | _ => SObj false false end.
+Definition sessions_off (cw : cworld) (c : cstate) : bool := cw_disabled cw || negb (cache c).
+
+(* effect on the provenance flags; [k] is the kind of the running call, [c] the control state at that point *)
+Definition gapply (a : dact) (k : okind) (c : cstate) (g : gstate) : gstate :=
+  match a with
+  | DArgT => set_g_own_t (if injecting k then GInj else GOther)
+               (set_g_slot_t (if first_own (x_t c) then g_own_t g else g_slot_t g) g)
+  | DArgP => set_psk_same false
+               (set_g_own_p (if injecting k then GInj else GOther)
+                  (set_g_slot_p (if p_own (x_p c) then g_own_p g else g_slot_p g) g))
+  | DAdoptT => match own_t c, first_slot (x_t c) with
+               | ONone, Some (SObj _ _) => set_g_own_t (g_slot_t g) g
+               | _, _ => g
+               end
+  | DAdoptP => match own_p c, x_p c with
+               | ONone, XPsome (SObj _ _) => set_psk_same false (set_g_own_p (g_slot_p g) g)
+               | _, _ => g
+               end
+  | DPreset => let g1 := match spec_slot (own_t c) with SOwn => g | SObj _ _ => set_g_slot_t GOther g end in
+               match spec_slot (own_p c) with SOwn => g1 | SObj _ _ => set_g_slot_p GOther g1 end
+  | DInitT => set_g_own_t GOther g
+  | DInitP => set_psk_same false (set_g_own_p GOther g)
+  | DHsFromT => set_psk_same false (set_g_hs_sess (g_own_t g) (set_g_hs_ticket (g_own_t g) g))
+  | DHsFromP => set_psk_same true (set_g_hs_sess (g_own_p g) (set_g_hs_ident (g_own_p g) g))
+  | DClearT => set_psk_same false (set_g_hs_sess GOther (set_g_hs_ticket GOther g))
+  | DClearP => set_psk_same false (set_g_hs_sess GOther (set_g_hs_ident GOther g))
+  | DMarshal =>
+      set_g_raw_t (match x_t c with
+                   | X1 SOwn => if o_some (own_t c) then g_own_t g else GOther
+                   | X1 (SObj _ _) => g_slot_t g
+                   | _ => GOther
+                   end)
+        (set_g_raw_p (match x_p c with
+                      | XPsome s => if slot_init (own_p c) s
+                                    then match s with SOwn => g_own_p g | SObj _ _ => g_slot_p g end
+                                    else GOther
+                      | XPnone => GOther
+                      end) g)
+  | DWireRaw | DWireGo => g
+  end.
+
+(* the session part of the hello crypto/tls writes for HelloGolang after its own loadSession *)
+Definition go_view (w : world) (c : cstate) : wireview :=
+  if sessions_off (cworld_of w) c then ([], None)
+  else match w_hit w with
+       | HitNone => ([[]], None)
+       | Hit12 tk _ => ([tk], None)
+       | Hit13 lb _ => ([[]], Some lb)
+       end.
+
+(* effect on the data *)
+Definition dapply (w : world) (o : op) (a : dact) (c : cstate) (d : dstate) : dstate :=
+  match a with
+  | DArgT => set_d_own_t (arg_datum o) (set_d_slot_t (if first_own (x_t c) then d_own_t d else d_slot_t d) d)
+  | DArgP => set_d_own_p (arg_datum o) (set_d_slot_p (if p_own (x_p c) then d_own_p d else d_slot_p d) d)
+  | DAdoptT => match own_t c, first_slot (x_t c) with
+               | ONone, Some (SObj _ _) => set_d_own_t (d_slot_t d) d
+               | _, _ => d
+               end
+  | DAdoptP => match own_p c, x_p c with
+               | ONone, XPsome (SObj _ _) => set_d_own_p (d_slot_p d) d
+               | _, _ => d
+               end
+  | DPreset => let d1 := match spec_slot (own_t c) with SOwn => d | SObj _ _ => set_d_slot_t pristine d end in
+               match spec_slot (own_p c) with SOwn => d1 | SObj _ _ => set_d_slot_p pristine d1 end
+  | DInitT => set_d_own_t (hit_datum (w_hit w)) d
+  | DInitP => set_d_own_p (hit_datum (w_hit w)) d
+  | DHsFromT => set_hs_sess (snd (d_own_t d)) (set_hs_ticket (fst (d_own_t d)) d)
+  | DHsFromP => set_hs_early (snd (d_own_p d)) (set_hs_sess (snd (d_own_p d)) (set_hs_ident (Some (fst (d_own_p d))) d))
+  | DClearT => set_hs_sess 0 (set_hs_ticket [] d)
+  | DClearP => set_hs_early 0 (set_hs_sess 0 (set_hs_ident None d))
+  | DMarshal =>
+      (* SessionTicketExtension.Read writes e.Ticket whatever Initialized says (u_session_ticket.go:37-53);
+         UtlsPreSharedKeyExtension.Read writes the identities only when a session is present (u_pre_shared_key.go:257-262) *)
+      let tdat := fun s => match s with
+                           | SOwn => if o_some (own_t c) then fst (d_own_t d) else []
+                           | SObj _ _ => fst (d_slot_t d)
+                           end in
+      let tks := match x_t c with
+                 | X0 => []
+                 | X1 s => [tdat s]
+                 | Xmany s => tdat s :: repeat [] (Nat.pred (w_tickets w))
+                 end in
+      let pk := match x_p c with
+                | XPnone => None
+                | XPsome s => if slot_init (own_p c) s
+                              then Some (match s with SOwn => fst (d_own_p d) | SObj _ _ => fst (d_slot_p d) end)
+                              else None
+                end in
+      set_raw (Some (tks, pk)) d
+  | DWireRaw => set_wire (raw d) d
+  | DWireGo => set_wire (Some (go_view w c)) d
+  end.
+
+(* ---- programs ---- *)
+Inductive prog (A : Type) : Type :=
+| Ret (a : A)
+| Get (k : cstate -> gstate -> prog A)       (* read the finite parts *)
+| Put (f : cstate -> cstate) (k : prog A)    (* write the control part *)
+| Act (a : dact) (k : prog A)                (* move data *)
+| Fail (e : N)                               (* return an error *)
+| Pan (p : N).                               (* panic *)
+Arguments Ret {A} a.
+Arguments Get {A} k.
+Arguments Put {A} f k.
+Arguments Act {A} a k.
+Arguments Fail {A} e.
+Arguments Pan {A} p.
+
+Fixpoint bind {A B} (p : prog A) (f : A -> prog B) : prog B :=
+  match p with
+  | Ret a => f a
+  | Get k => Get (fun c g => bind (k c g) f)
+  | Put h k => Put h (bind k f)
+  | Act a k => Act a (bind k f)
+  | Fail e => Fail e
+  | Pan q => Pan q
+  end.
+Notation "'let!' x := m 'in' k" := (bind m (fun x => k)) (at level 199, x name, m at level 100, k at level 199, right associativity).
+Notation "m ;;; k" := (bind m (fun _ => k)) (at level 199, right associativity).
+
+(* the control semantics: abstract world (inside the program), kind of call, control and flags *)
+Fixpoint runC {A} (k : okind) (p : prog A) (c : cstate) (g : gstate) : (cstate * gstate) * res A :=
+  match p with
+  | Ret a => ((c, g), Ok a)
+  | Get f => runC k (f c g) c g
+  | Put h q => runC k q (h c) g
+  | Act a q => runC k q c (gapply a k c g)
+  | Fail e => ((c, g), Err e)
+  | Pan x => ((c, g), Panic x)
+  end.
+(* the full semantics *)
+Fixpoint runF {A} (w : world) (o : op) (p : prog A) (c : cstate) (g : gstate) (d : dstate) : st * res A :=
+  match p with
+  | Ret a => ((c, g, d), Ok a)
+  | Get f => runF w o (f c g) c g d
+  | Put h q => runF w o q (h c) g d
+  | Act a q => runF w o q c (gapply a (kind o) c g) (dapply w o a c d)
+  | Fail e => ((c, g, d), Err e)
+  | Pan x => ((c, g, d), Panic x)
+  end.
+
+Definition get : prog cstate := Get (fun c _ => Ret c).
+Definition put (f : cstate -> cstate) : prog unit := Put f (Ret tt).
+Definition act (a : dact) : prog unit := Act a (Ret tt).
+Definition uassert (b : bool) (c : N) : prog unit := if b then Ret tt else Pan c.
+Definition when (b : bool) (m : prog unit) : prog unit := if b then m else Ret tt.
 
 Definition cst_eqb (a b : cst) : bool :=
   match a, b with
@@ -165,304 +402,289 @@ Definition cst_eqb (a b : cst) : bool :=
 Definition bstatus_eqb (a b : bstatus) : bool :=
   match a, b with NotBuilt, NotBuilt | ByUtls, ByUtls | ByGo, ByGo => true | _, _ => false end.
 Definition is_some {A} (o : option A) : bool := match o with Some _ => true | None => false end.
-Definition optN_eqb (a b : option N) : bool :=
-  match a, b with Some x, Some y => x =? y | None, None => true | _, _ => false end.
-
-Definition sessions_off (w : world) (s : st) : bool := w_disabled w || negb (cache s).
-
-(* the object an entry of uconn.Extensions denotes *)
-Definition slot_obj (own : option obj) (sl : slot) : option obj :=
-  match sl with SOwn => own | SObj o => Some o end.
-(* the controller is given another object: entries that pointed to the old one keep pointing to it *)
-Definition demote (old : option obj) (sl : slot) : slot :=
-  match sl, old with SOwn, Some o => SObj o | _, _ => sl end.
 
 (* ---- sessionController ---- *)
 
-(* overrideExtension, u_session_controller.go:231-240 (extension is non-nil here) *)
-Definition override_ticket (o : obj) : M unit :=
-  let! s := get in
-  uassert (negb (locked s)) P_LOCKED ;;;
-  uassert (cst_eqb (cs s) NoSession) P_STATE ;;;
-  upd (fun s => set_own_t (Some o) (set_x_t (map (demote (own_t s)) (x_t s)) s)) ;;;
-  when (o_init o) (upd (set_cs TicketInit)).
+(* an entry that pointed to the controller's old object keeps pointing to it when the controller is given another *)
+Definition demote_s (old : oshape) (s : sshape) : sshape :=
+  match s, old with SOwn, OSome u i => SObj u i | _, _ => s end.
+Definition demote_t (old : oshape) (x : xts) : xts :=
+  match x with X0 => X0 | X1 s => X1 (demote_s old s) | Xmany s => Xmany (demote_s old s) end.
+Definition demote_p (old : oshape) (x : xps) : xps :=
+  match x with XPnone => XPnone | XPsome s => XPsome (demote_s old s) end.
+Definition shape_of (s : sshape) : oshape := match s with SOwn => ONone | SObj u i => OSome u i end.
+Definition own_first (x : xts) : xts := match x with X0 => X0 | X1 _ => X1 SOwn | Xmany _ => Xmany SOwn end.
 
-Definition override_psk (o : obj) : M unit :=
-  let! s := get in
-  uassert (negb (locked s)) P_LOCKED ;;;
-  uassert (cst_eqb (cs s) NoSession) P_STATE ;;;
-  upd (fun s => set_own_p (Some o) (set_x_p (option_map (demote (own_p s)) (x_p s)) s)) ;;;
-  when (o_init o) (upd (set_cs PskInit)).
+(* overrideExtension, u_session_controller.go:231-240 (extension is non-nil here); the caller's object is
+   {made by the caller, Initialized = init} *)
+Definition override_ticket (init : bool) : prog unit :=
+  let! c := get in
+  uassert (negb (locked c)) P_LOCKED ;;;
+  uassert (cst_eqb (cs c) NoSession) P_STATE ;;;
+  act DArgT ;;;
+  put (fun c => set_own_t (OSome true init) (set_x_t (demote_t (own_t c) (x_t c)) c)) ;;;
+  when init (put (set_cs TicketInit)).
+
+Definition override_psk (init : bool) : prog unit :=
+  let! c := get in
+  uassert (negb (locked c)) P_LOCKED ;;;
+  uassert (cst_eqb (cs c) NoSession) P_STATE ;;;
+  act DArgP ;;;
+  put (fun c => set_own_p (OSome true init) (set_x_p (demote_p (own_p c) (x_p c)) c)) ;;;
+  when init (put (set_cs PskInit)).
 
 (* syncSessionExts, u_session_controller.go:265-316. The loop visits the session-ticket entries in order, then the
    pre_shared_key entry (which the second uAssert requires to be the last one anyway). *)
-Definition adopt_ticket : M unit :=           (* lines 274-283, first ISessionTicketExtension *)
-  let! s := get in
-  match x_t s with
-  | [] => ret tt
-  | sl :: rest =>
-      upd (fun s => match own_t s with
-                    | None => set_own_t (slot_obj None sl) (set_x_t (SOwn :: rest) s)
-                    | Some _ => set_x_t (SOwn :: rest) s
+Definition adopt_ticket : prog unit :=           (* lines 274-283 *)
+  let! c := get in
+  match first_slot (x_t c) with
+  | None => Ret tt
+  | Some sl =>
+      act DAdoptT ;;;
+      put (fun c => match own_t c with
+                    | ONone => set_own_t (shape_of sl) (set_x_t (own_first (x_t c)) c)
+                    | OSome _ _ => set_x_t (own_first (x_t c)) c
                     end) ;;;
-      uassert (match rest with [] => true | _ => false end) P_MULTI_TICKET   (* a second one: numSessionExt != 0 *)
+      uassert (match x_t c with Xmany _ => false | _ => true end) P_MULTI_TICKET   (* a second one: numSessionExt != 0 *)
   end.
 
-Definition adopt_psk (w : world) : M unit :=  (* lines 284-294 *)
-  let! s := get in
-  match x_p s with
-  | None => ret tt
-  | Some sl =>
-      uassert (w_psk_last w) P_PSK_NOT_LAST ;;;
-      upd (fun s => match own_p s with
-                    | None => set_own_p (slot_obj None sl) (set_x_p (Some SOwn) s)
-                    | Some _ => set_x_p (Some SOwn) s
+Definition adopt_psk (cw : cworld) : prog unit :=  (* lines 284-294 *)
+  let! c := get in
+  match x_p c with
+  | XPnone => Ret tt
+  | XPsome sl =>
+      uassert (cw_psk_last cw) P_PSK_NOT_LAST ;;;
+      act DAdoptP ;;;
+      put (fun c => match own_p c with
+                    | ONone => set_own_p (shape_of sl) (set_x_p (XPsome SOwn) c)
+                    | OSome _ _ => set_x_p (XPsome SOwn) c
                     end)
   end.
 
-Definition sync_session_exts (w : world) : M unit :=
-  let! s := get in
-  uassert (bstatus_eqb (status s) NotBuilt) P_BUILT ;;;                                            (* 266 *)
-  uassert (negb (locked s)) P_LOCKED ;;;                                                           (* 267 *)
-  uassert (cst_eqb (cs s) NoSession || cst_eqb (cs s) TicketInit || cst_eqb (cs s) PskInit) P_STATE ;;;  (* 269 *)
+Definition sync_session_exts (cw : cworld) : prog unit :=
+  let! c := get in
+  uassert (bstatus_eqb (status c) NotBuilt) P_BUILT ;;;                                            (* 266 *)
+  uassert (negb (locked c)) P_LOCKED ;;;                                                           (* 267 *)
+  uassert (cst_eqb (cs c) NoSession || cst_eqb (cs c) TicketInit || cst_eqb (cs c) PskInit) P_STATE ;;;  (* 269 *)
   adopt_ticket ;;;
-  adopt_psk w ;;;
-  let! s := get in
-  (match x_t s with                                                                                (* 297-304 *)
-   | [] => if cst_eqb (cs s) TicketInit then merr E_NO_TICKET_EXT
-           else upd (fun s => set_own_t None (set_hs_sess 0 (set_hs_ticket [] s)))
-   | _ => ret tt
+  adopt_psk cw ;;;
+  let! c := get in
+  (match x_t c with                                                                                (* 297-304 *)
+   | X0 => if cst_eqb (cs c) TicketInit then Fail E_NO_TICKET_EXT
+           else act DClearT ;;; put (set_own_t ONone)
+   | _ => Ret tt
    end) ;;;
-  let! s := get in
-  (match x_p s with                                                                                (* 305-314 *)
-   | None => if cst_eqb (cs s) PskInit then merr E_NO_PSK_EXT
-             else upd (fun s => set_own_p None (set_hs_early 0 (set_hs_sess 0 (set_hs_ident None s))))
-   | Some _ => ret tt
+  let! c := get in
+  (match x_p c with                                                                                (* 305-314 *)
+   | XPnone => if cst_eqb (cs c) PskInit then Fail E_NO_PSK_EXT
+               else act DClearP ;;; put (set_own_p ONone)
+   | XPsome _ => Ret tt
    end).
 
 (* Conn.loadSession as seen by the controller, handshake_client.go:396-560: onEnterLoadSessionCheck, the lookup,
    shouldLoadSessionWriteBinders on the TLS 1.3 path, deferred onLoadSessionReturn *)
-Definition load_session (w : world) : M hit :=
-  let! s := get in
-  uassert (negb (locked s)) P_ENTER_LOCKED ;;;                                                      (* 321 *)
-  (match tracker s with                                                                             (* 322-329 *)
-   | AboutToCall | NeverCalled => upd (set_calling true)
-   | ByULoad | ByGoTLS => mpanic P_TWICE
+Definition load_session (cw : cworld) : prog hitk :=
+  let! c := get in
+  uassert (negb (locked c)) P_ENTER_LOCKED ;;;                                                      (* 321 *)
+  (match tracker c with                                                                             (* 322-329 *)
+   | AboutToCall | NeverCalled => put (set_calling true)
+   | ByULoad | ByGoTLS => Pan P_TWICE
    end) ;;;
-  let! s := get in
-  let h := if sessions_off w s then HitNone else w_hit w in
+  let! c := get in
+  let h := if sessions_off cw c then HNone else cw_hit cw in
   (match h with                                                                                     (* 351-360 *)
-   | Hit13 _ _ => uassert (calling s) P_WRITE_BINDERS ;;;
-                  match tracker s with NeverCalled | AboutToCall => ret tt | _ => mpanic P_WRITE_BINDERS end
-   | _ => ret tt
+   | H13 => uassert (calling c) P_WRITE_BINDERS ;;;
+            match tracker c with NeverCalled | AboutToCall => Ret tt | _ => Pan P_WRITE_BINDERS end
+   | _ => Ret tt
    end) ;;;
-  uassert (calling s) P_RETURN ;;;                                                                  (* 336 *)
-  (match tracker s with                                                                             (* 337-344 *)
-   | NeverCalled => upd (set_tracker ByGoTLS)
-   | AboutToCall => upd (set_tracker ByULoad)
-   | _ => mpanic P_RETURN
+  uassert (calling c) P_RETURN ;;;                                                                  (* 336 *)
+  (match tracker c with                                                                             (* 337-344 *)
+   | NeverCalled => put (set_tracker ByGoTLS)
+   | AboutToCall => put (set_tracker ByULoad)
+   | _ => Pan P_RETURN
    end) ;;;
-  upd (set_calling false) ;;;
-  ret h.
+  put (set_calling false) ;;;
+  Ret h.
 
 (* initSessionTicketExt, :148-161 *)
-Definition init_ticket_ext (w : world) (ticket : bytes) (sess : N) : M unit :=
-  let! s := get in
-  uassert (negb (locked s)) P_LOCKED ;;;
-  uassert (bstatus_eqb (status s) NotBuilt) P_BUILT ;;;
-  uassert (cst_eqb (cs s) NoSession) P_STATE ;;;
-  match own_t s with
-  | None => uassert (w_skip w) P_CANNOT_SKIP
-  | Some o =>
-      uassert (negb (o_init o)) P_INIT_GUARD ;;;
-      upd (fun s => set_cs TicketInit (set_own_t (Some (mkObj (o_user o) true ticket sess)) s))
+Definition init_ticket_ext (cw : cworld) : prog unit :=
+  let! c := get in
+  uassert (negb (locked c)) P_LOCKED ;;;
+  uassert (bstatus_eqb (status c) NotBuilt) P_BUILT ;;;
+  uassert (cst_eqb (cs c) NoSession) P_STATE ;;;
+  match own_t c with
+  | ONone => uassert (cw_skip cw) P_CANNOT_SKIP
+  | OSome u i =>
+      uassert (negb i) P_INIT_GUARD ;;;
+      act DInitT ;;;
+      put (fun c => set_cs TicketInit (set_own_t (OSome u true) c))
   end.
 
 (* initPskExt, :166-186 *)
-Definition init_psk_ext (w : world) (label : bytes) (sess : N) : M unit :=
-  let! s := get in
-  uassert (negb (locked s)) P_LOCKED ;;;
-  uassert (bstatus_eqb (status s) NotBuilt) P_BUILT ;;;
-  uassert (cst_eqb (cs s) NoSession) P_STATE ;;;
-  match own_p s with
-  | None => uassert (w_skip w) P_CANNOT_SKIP
-  | Some o =>
-      uassert (negb (o_init o)) P_INIT_GUARD ;;;
-      upd (fun s => set_cs PskInit (set_own_p (Some (mkObj (o_user o) true label sess)) s))
+Definition init_psk_ext (cw : cworld) : prog unit :=
+  let! c := get in
+  uassert (negb (locked c)) P_LOCKED ;;;
+  uassert (bstatus_eqb (status c) NotBuilt) P_BUILT ;;;
+  uassert (cst_eqb (cs c) NoSession) P_STATE ;;;
+  match own_p c with
+  | ONone => uassert (cw_skip cw) P_CANNOT_SKIP
+  | OSome u i =>
+      uassert (negb i) P_INIT_GUARD ;;;
+      act DInitP ;;;
+      put (fun c => set_cs PskInit (set_own_p (OSome u true) c))
   end.
 
 (* setSessionTicketToUConn, :189-194 *)
-Definition set_ticket_to_uconn : M unit :=
-  let! s := get in
-  match own_t s with
-  | Some o =>
-      uassert (cst_eqb (cs s) TicketInit) P_SET_TICKET ;;;
-      upd (fun s => set_cs TicketAllSet (set_hs_sess (o_sess o) (set_hs_ticket (o_data o) s)))
-  | None => mpanic P_SET_TICKET
+Definition set_ticket_to_uconn : prog unit :=
+  let! c := get in
+  match own_t c with
+  | OSome _ _ =>
+      uassert (cst_eqb (cs c) TicketInit) P_SET_TICKET ;;;
+      act DHsFromT ;;;
+      put (set_cs TicketAllSet)
+  | ONone => Pan P_SET_TICKET
   end.
 
 (* setPskToUConn, :197-213 *)
-Definition set_psk_to_uconn : M unit :=
-  let! s := get in
-  match own_p s with
-  | Some o =>
-      match cs s with
-      | PskInit =>
-          upd (fun s => set_cs PskAllSet (set_hs_early (o_sess o) (set_hs_sess (o_sess o) (set_hs_ident (Some (o_data o)) s))))
-      | PskAllSet =>
-          uassert ((hs_sess s =? o_sess o) && (hs_early s =? o_sess o) &&
-                   match hs_ident s with None => true | Some l => bytes_eqb l (o_data o) end) P_PSK_CHANGED
-      | _ => mpanic P_SET_PSK
+Definition set_psk_to_uconn : prog unit :=
+  Get (fun c g =>
+  match own_p c with
+  | OSome _ _ =>
+      match cs c with
+      | PskInit => act DHsFromP ;;; put (set_cs PskAllSet)
+      | PskAllSet => uassert (psk_same g) P_PSK_CHANGED     (* Session, EarlySecret, identities still the extension's *)
+      | _ => Pan P_SET_PSK
       end
-  | None => mpanic P_SET_PSK
-  end.
+  | ONone => Pan P_SET_PSK
+  end).
 
 (* shouldUpdateBinders :219-224, updateBinders :226-229 (PatchBuiltHello itself is cryptography: not modelled) *)
-Definition should_update_binders (s : st) : bool :=
-  is_some (own_p s) && (cst_eqb (cs s) PskInit || cst_eqb (cs s) PskAllSet).
+Definition should_update_binders (c : cstate) : bool :=
+  o_some (own_p c) && (cst_eqb (cs c) PskInit || cst_eqb (cs c) PskAllSet).
 
 (* finalCheck, :136-139 *)
-Definition final_check : M unit :=
-  let! s := get in
-  uassert (cst_eqb (cs s) PskAllSet || cst_eqb (cs s) TicketAllSet || cst_eqb (cs s) NoSession) P_STATE ;;;
-  upd (set_locked true).
+Definition final_check : prog unit :=
+  let! c := get in
+  uassert (cst_eqb (cs c) PskAllSet || cst_eqb (cs c) TicketAllSet || cst_eqb (cs c) NoSession) P_STATE ;;;
+  put (set_locked true).
 
 (* ---- UConn ---- *)
 
 (* ApplyPreset, u_parrots.go:2766-2943: fresh KeyShareKeys (2779-2783); uconn.Extensions := copy of the spec's list
    (2839-2840) — the spec's objects are the ones of the previous application; a key share is generated only for
    entries without Data (2885-2887), the first generated private key is kept (2917); syncSessionExts (2937). *)
-Definition spec_slot (own : option obj) : slot :=
-  match own with
-  | Some o => if o_user o then SObj pristine else SOwn   (* the controller already owns the spec's object *)
-  | None => SObj pristine
-  end.
-Definition apply_preset (w : world) : M unit :=
-  upd (set_keys None) ;;;
-  upd (fun s => set_x_t (match w_tickets w with
-                         | O => []
-                         | S k => spec_slot (own_t s) :: repeat (SObj pristine) k
+Definition apply_preset (cw : cworld) : prog unit :=
+  put (fun c => set_keys_some false (set_keys_match false c)) ;;;
+  act DPreset ;;;
+  put (fun c => set_x_t (match cw_tk cw with
+                         | T0 => X0
+                         | T1 => X1 (spec_slot (own_t c))
+                         | Tmany => Xmany (spec_slot (own_t c))
                          end)
-                (set_x_p (if w_psk w then Some (spec_slot (own_p s)) else None) s)) ;;;
-  when (w_tls13 w)
-    (let! s := get in
-     match share s with
-     | None => upd (fun s => set_gen (gen s + 1) (set_share (Some (gen s + 1)) (set_keys (Some (gen s + 1)) s)))
-     | Some _ => ret tt                      (* len(ext.KeyShares[i].Data) > 1: continue *)
-     end) ;;;
-  sync_session_exts w.
+                (set_x_p (if cw_psk cw then XPsome (spec_slot (own_p c)) else XPnone) c)) ;;;
+  when (cw_tls13 cw)
+    (let! c := get in
+     if share_some c then Ret tt             (* len(ext.KeyShares[i].Data) > 1: continue *)
+     else put (fun c => set_share_some true (set_keys_some true (set_keys_match true c)))) ;;;
+  sync_session_exts cw.
 
 (* uLoadSession, u_conn.go:165-192; shouldLoadSession, u_session_controller.go:85-97 *)
-Definition u_load_session (w : world) : M unit :=
-  let! s := get in
-  if sessions_off w s then ret tt
-  else if (negb (is_some (own_t s)) && negb (is_some (own_p s))) || negb (bstatus_eqb (status s) NotBuilt) then ret tt
-  else match cs s with
+Definition u_load_session (cw : cworld) : prog unit :=
+  let! c := get in
+  if sessions_off cw c then Ret tt
+  else if (negb (o_some (own_t c)) && negb (o_some (own_p c))) || negb (bstatus_eqb (status c) NotBuilt) then Ret tt
+  else match cs c with
        | TicketInit => set_ticket_to_uconn
        | PskInit => set_psk_to_uconn
        | _ =>
-           uassert (cst_eqb (cs s) NoSession && negb (locked s)) P_ABOUT ;;;   (* utlsAboutToLoadSession :101-104 *)
-           upd (set_tracker AboutToCall) ;;;
-           let! h := load_session w in
+           uassert (cst_eqb (cs c) NoSession && negb (locked c)) P_ABOUT ;;;   (* utlsAboutToLoadSession :101-104 *)
+           put (set_tracker AboutToCall) ;;;
+           let! h := load_session cw in
            match h with
-           | HitNone => ret tt
-           | Hit12 tk se => init_ticket_ext w tk se ;;; set_ticket_to_uconn
-           | Hit13 lb se => init_psk_ext w lb se
+           | HNone => Ret tt
+           | H12 => init_ticket_ext cw ;;; set_ticket_to_uconn
+           | H13 => init_psk_ext cw
            end
        end.
 
-(* MarshalClientHello, as far as the two session extensions go: SessionTicketExtension.Read writes e.Ticket whatever
-   Initialized says (u_session_ticket.go:37-53); UtlsPreSharedKeyExtension.Read writes the identities when a session
-   is present, nothing when not and OmitEmptyPsk, ErrEmptyPsk otherwise (u_pre_shared_key.go:257-262) *)
-Definition marshal (w : world) : M unit :=
-  let! s := get in
-  let tks := map (fun sl => match slot_obj (own_t s) sl with Some o => o_data o | None => [] end) (x_t s) in
-  match x_p s with
-  | None => upd (set_raw (Some (tks, None)))
-  | Some sl =>
-      match slot_obj (own_p s) sl with
-      | Some o => if o_init o then upd (set_raw (Some (tks, Some (o_data o))))
-                  else if w_omit w then upd (set_raw (Some (tks, None))) else merr E_EMPTY_PSK
-      | None => if w_omit w then upd (set_raw (Some (tks, None))) else merr E_EMPTY_PSK
-      end
+(* MarshalClientHello, as far as the two session extensions go: ErrEmptyPsk when the pre_shared_key extension has no
+   session and OmitEmptyPsk is unset (u_pre_shared_key.go:257-262) *)
+Definition marshal (cw : cworld) : prog unit :=
+  let! c := get in
+  match x_p c with
+  | XPnone => act DMarshal
+  | XPsome sl => if slot_init (own_p c) sl || cw_omit cw then act DMarshal else Fail E_EMPTY_PSK
   end.
 
 (* uApplyPatch, u_conn.go:194-201 *)
-Definition u_apply_patch : M unit :=
-  let! s := get in
-  when (should_update_binders s)
-    (uassert (should_update_binders s) P_BINDERS ;;; set_psk_to_uconn).
+Definition u_apply_patch : prog unit :=
+  let! c := get in
+  when (should_update_binders c)
+    (uassert (should_update_binders c) P_BINDERS ;;; set_psk_to_uconn).
 
 (* buildHandshakeState, u_conn.go:108-163 (with the fix: the preset is applied once) *)
-Definition build (w : world) (load : bool) : M unit :=
-  let! s := get in
-  if w_golang w then
-    if bstatus_eqb (status s) ByGo then ret tt
+Definition build (cw : cworld) (load : bool) : prog unit :=
+  let! c := get in
+  if cw_golang cw then
+    if bstatus_eqb (status c) ByGo then Ret tt
     else
-      uassert (bstatus_eqb (status s) NotBuilt) P_BUILD_CALL ;;;
+      uassert (bstatus_eqb (status c) NotBuilt) P_BUILD_CALL ;;;
       (* makeClientHello: fresh key share and its private key together *)
-      upd (fun s => set_status ByGo (set_gen (gen s + 1) (set_share (Some (gen s + 1)) (set_keys (Some (gen s + 1)) s))))
+      put (fun c => set_status ByGo (set_share_some true (set_keys_some true (set_keys_match true c))))
   else
-    uassert (bstatus_eqb (status s) ByUtls || bstatus_eqb (status s) NotBuilt) P_BUILD_CALL ;;;
-    when (bstatus_eqb (status s) NotBuilt)
-      (if applied s && negb (w_reapply w) then sync_session_exts w
-       else (apply_preset w ;;; upd (set_applied true))) ;;;
-    when load (u_load_session w) ;;;
-    marshal w ;;;
-    when load (u_apply_patch ;;; final_check ;;; upd (set_status ByUtls)).
+    uassert (bstatus_eqb (status c) ByUtls || bstatus_eqb (status c) NotBuilt) P_BUILD_CALL ;;;
+    when (bstatus_eqb (status c) NotBuilt)
+      (if applied c && negb (cw_reapply cw) then sync_session_exts cw
+       else (apply_preset cw ;;; put (set_applied true))) ;;;
+    when load (u_load_session cw) ;;;
+    marshal cw ;;;
+    when load (u_apply_patch ;;; final_check ;;; put (set_status ByUtls)).
 
-(* the session part of the hello crypto/tls writes for HelloGolang after its own loadSession *)
-Definition go_view (w : world) (s : st) (h : hit) : wireview :=
-  if sessions_off w s then ([], None)
-  else match h with
-       | HitNone => ([[]], None)
-       | Hit12 tk _ => ([tk], None)
-       | Hit13 lb _ => ([[]], Some lb)
-       end.
+(* the key-share private keys are the ones of the share in the hello (or there is neither) *)
+Definition keys_eq (c : cstate) : bool :=
+  if share_some c then keys_some c && keys_match c else negb (keys_some c).
 
 (* UConn.handshakeContext u_conn.go:317-423 and clientHandshake u_handshake_client.go:383-440 *)
-Definition handshake (w : world) : M unit :=
-  let! s := get in
-  if done s then ret tt                                   (* isHandshakeComplete: 321 *)
-  else if herr s then merr E_HANDSHAKE                    (* sticky handshakeErr: 364 *)
+Definition handshake (cw : cworld) : prog unit :=
+  let! c := get in
+  if done c then Ret tt                                   (* isHandshakeComplete: 321 *)
+  else if herr c then Fail E_HANDSHAKE                    (* sticky handshakeErr: 364 *)
   else
-    build w true ;;;                                      (* 376: an error here is returned without being recorded *)
-    let! s := get in
-    (if locked s then upd (fun s => set_wire (raw s) s)   (* session taken from HandshakeState: 431-440 *)
-     else (let! h := load_session w in let! s := get in upd (set_wire (Some (go_view w s h))))) ;;;
-    let! s := get in
-    if w_srv13 w && (w_tls13 w || w_golang w) && negb (optN_eqb (keys s) (share s))
-    then upd (set_herr true) ;;; merr E_HANDSHAKE         (* no private key for the share the server used *)
-    else upd (set_done true).
+    build cw true ;;;                                     (* 376: an error here is returned without being recorded *)
+    let! c := get in
+    (if locked c then act DWireRaw                        (* session taken from HandshakeState: 431-440 *)
+     else (let! h := load_session cw in act DWireGo)) ;;;
+    let! c := get in
+    if cw_srv13 cw && (cw_tls13 cw || cw_golang cw) && negb (keys_eq c)
+    then put (set_herr true) ;;; Fail E_HANDSHAKE         (* no private key for the share the server used *)
+    else put (set_done true).
 
-Definition obj_of (e : bool * bytes * N) : obj := let '(i, d, se) := e in mkObj true i d se.
+Definition setter (cw : cworld) (a : argk) (ov : bool -> prog unit) : prog unit :=
+  let! c := get in
+  if sessions_off cw c then Fail E_DISABLED                                 (* u_conn.go:226-228, 237-239 *)
+  else match a with ANil => Ret tt | AInit => ov true | AUninit => ov false end.
 
-Definition step (w : world) (o : op) : M unit :=
-  match o with
-  | SetCache => upd (set_cache true)                                        (* u_conn.go:249-252 *)
-  | BuildNoSess => build w false
-  | Build => build w true
-  | Handshake => handshake w
-  | SetTicket e =>                                                          (* u_conn.go:225-233 *)
-      let! s := get in
-      if sessions_off w s then merr E_DISABLED
-      else match e with None => ret tt | Some e => override_ticket (obj_of e) end
-  | SetState e =>                                                           (* u_conn.go:214-221 *)
-      let! s := get in
-      if sessions_off w s then merr E_DISABLED
-      else match e with
-           | None => override_ticket (mkObj true true [] 0)
-           | Some (tk, se) => override_ticket (mkObj true true tk se)
-           end
-  | SetPsk e =>                                                             (* u_conn.go:236-246 *)
-      let! s := get in
-      if sessions_off w s then merr E_DISABLED
-      else match e with None => ret tt | Some e => override_psk (obj_of e) end
+Definition stepk (cw : cworld) (k : okind) : prog unit :=
+  match k with
+  | KSetCache => put (set_cache true)                                       (* u_conn.go:249-252 *)
+  | KBuildNoSess => build cw false
+  | KBuild => build cw true
+  | KHandshake => handshake cw
+  | KSetTicket a => setter cw a override_ticket                             (* u_conn.go:225-233 *)
+  | KSetState => setter cw AInit override_ticket                            (* u_conn.go:214-221 *)
+  | KSetPsk a => setter cw a override_psk                                   (* u_conn.go:236-246 *)
   end.
 
-Definition init (w : world) : st :=
-  mkSt (w_cache0 w) NotBuilt false NoSession false NeverCalled false None None [] None 0 [] None 0 0 None None None
-       false false None.
+Definition cstep (cw : cworld) (k : okind) (c : cstate) (g : gstate) : (cstate * gstate) * res unit :=
+  runC k (stepk cw k) c g.
+Definition step (w : world) (o : op) (s : st) : st * res unit :=
+  runF w o (stepk (cworld_of w) (kind o)) (st_c s) (st_g s) (st_d s).
+
+Definition cinit (cache0 : bool) : cstate :=
+  mkC cache0 NotBuilt false NoSession false NeverCalled false ONone ONone X0 XPnone false false false false false.
+Definition ginit : gstate := mkG false GOther GOther GOther GOther GOther GOther GOther GOther GOther.
+Definition dinit : dstate := mkD pristine pristine pristine pristine 0 [] None 0 None None.
+Definition init (w : world) : st := (cinit (w_cache0 w), ginit, dinit).
 
 Fixpoint run (w : world) (s : st) (ops : list op) : list (res unit) :=
   match ops with
@@ -481,55 +703,62 @@ Fixpoint final (w : world) (s : st) (ops : list op) : st :=
    inspect the ClientHello before setting the session manually through SetSessionTicketExtension or SetPSKExtension".
    u_conn.go:225-248: the setters need session support (a ClientSessionCache, tickets not disabled).
    u_session_controller.go:231-240: one session per connection (the controller must be in NoSession). *)
-Record lst := mkL { l_cache : bool; l_set : bool; l_built : bool; l_hs : bool }.
-Definition linit (w : world) : lst := mkL (w_cache0 w) false false false.
+Inductive injk := INone | ITicket | IPsk.
+Record lst := mkL { l_cache : bool; l_set : bool; l_built : bool; l_hs : bool; l_inj : injk }.
+Definition linit (cache0 : bool) : lst := mkL cache0 false false false INone.
 
-Definition setter_arg (o : op) : option (option bool) :=   (* None: not a setter; Some None: nil argument; Some (Some i): Initialized = i *)
-  match o with
-  | SetTicket None | SetPsk None => Some None
-  | SetTicket (Some (i, _, _)) | SetPsk (Some (i, _, _)) => Some (Some i)
-  | SetState _ => Some (Some true)
+Definition setter_arg (k : okind) : option (option bool) :=   (* None: not a setter; Some None: nil argument; Some (Some i): Initialized = i *)
+  match k with
+  | KSetTicket ANil | KSetPsk ANil => Some None
+  | KSetTicket AInit | KSetPsk AInit | KSetState => Some (Some true)
+  | KSetTicket AUninit | KSetPsk AUninit => Some (Some false)
   | _ => None
   end.
+Definition inj_kind (k : okind) : injk :=
+  match k with KSetTicket AInit | KSetState => ITicket | KSetPsk AInit => IPsk | _ => INone end.
 
 (* a call the documentation forbids: a setter without session support, a (non-nil) session extension after
    BuildHandshakeState/Handshake, a second session *)
-Definition forbidden (w : world) (l : lst) (o : op) : bool :=
-  match setter_arg o with
+Definition forbiddenk (cw : cworld) (l : lst) (k : okind) : bool :=
+  match setter_arg k with
   | None => false
-  | Some None => negb (l_cache l) || w_disabled w
-  | Some (Some _) => negb (l_cache l) || w_disabled w || l_built l || l_set l
+  | Some None => negb (l_cache l) || cw_disabled cw
+  | Some (Some _) => negb (l_cache l) || cw_disabled cw || l_built l || l_set l
   end.
 
 (* Once Handshake has been called only Handshake again is a documented call (it returns the recorded result); the
    handshake replaces HandshakeState, so building again afterwards is outside the documentation and outside this model. *)
-Definition legal_step (w : world) (l : lst) (o : op) : option lst :=
-  match o with
-  | SetCache => if l_hs l then None else Some (mkL true (l_set l) (l_built l) (l_hs l))
-  | BuildNoSess => if l_hs l then None else Some l
-  | Build => if l_hs l then None else Some (mkL (l_cache l) (l_set l) true (l_hs l))
-  | Handshake => Some (mkL (l_cache l) (l_set l) true true)
+Definition legal_stepk (cw : cworld) (l : lst) (k : okind) : option lst :=
+  match k with
+  | KSetCache => if l_hs l then None else Some (mkL true (l_set l) (l_built l) (l_hs l) (l_inj l))
+  | KBuildNoSess => if l_hs l then None else Some l
+  | KBuild => if l_hs l then None else Some (mkL (l_cache l) (l_set l) true (l_hs l) (l_inj l))
+  | KHandshake => Some (mkL (l_cache l) (l_set l) true true (l_inj l))
   | _ =>
-      if forbidden w l o then None
-      else match setter_arg o with
-           | Some (Some i) => Some (mkL (l_cache l) i (l_built l) (l_hs l))
+      if forbiddenk cw l k then None
+      else match setter_arg k with
+           | Some (Some i) => Some (mkL (l_cache l) i (l_built l) (l_hs l)
+                                        (match l_inj l with INone => inj_kind k | x => x end))
            | _ => Some l
            end
   end.
+Definition forbidden (w : world) (l : lst) (o : op) : bool := forbiddenk (cworld_of w) l (kind o).
+Definition legal_step (w : world) (l : lst) (o : op) : option lst := legal_stepk (cworld_of w) l (kind o).
 
 Fixpoint legal_from (w : world) (l : lst) (ops : list op) : option lst :=
   match ops with
   | [] => Some l
   | o :: r => match legal_step w l o with Some l' => legal_from w l' r | None => None end
   end.
-Definition legal (w : world) (ops : list op) : bool := is_some (legal_from w (linit w) ops).
+Definition legal (w : world) (ops : list op) : bool := is_some (legal_from w (linit (w_cache0 w)) ops).
 
 (* the shape of every predefined (non-custom) ClientHelloID: at most one session-ticket extension, pre_shared_key
    last and never without session_ticket, resumption skipped when an extension is missing, OmitEmptyPsk set when the
    spec carries a pre_shared_key extension (otherwise the hello does not marshal without a session: ErrEmptyPsk) *)
-Definition world_ok (w : world) : bool :=
-  (Nat.leb (w_tickets w) 1) && w_skip w && negb (w_reapply w) &&
-  (negb (w_psk w) || (w_psk_last w && w_omit w && Nat.eqb (w_tickets w) 1)).
+Definition cworld_ok (cw : cworld) : bool :=
+  (match cw_tk cw with Tmany => false | _ => true end) && cw_skip cw && negb (cw_reapply cw) &&
+  (negb (cw_psk cw) || (cw_psk_last cw && cw_omit cw && match cw_tk cw with T1 => true | _ => false end)).
+Definition world_ok (w : world) : bool := cworld_ok (cworld_of w).
 
 (* the initialized session the caller injected in a legal history, if any *)
 Inductive inj := InjTicket (tk : bytes) (se : N) | InjPsk (lb : bytes) (se : N).
